@@ -3,7 +3,7 @@
    fixes/C23-*.patch; Spec.spec_step is Substrate's AuthoritySet (authorities.rs, fork-tree).
    `prefix` = the pinned code, only used by the ..._prefix_refuted witnesses. *)
 From Coq Require Import NArith List Bool Arith.
-From C23 Require Import Model Spec Enum Proofs Bounded Local.
+From C23 Require Import Model Spec Enum Proofs Bounded Local Reach.
 Import ListNotations.
 Local Open Scope N_scope.
 
@@ -35,6 +35,19 @@ Theorem C23_setid_by_number : forall chs ls n, sorted_n ls = true -> go_table_ok
   Some (match s_setid_in (spec_table_from 0 ls) n with Some id => id | None => N.of_nat (length ls) end).
 Proof. exact setid_lookup_agrees. Qed.
 Print Assumptions C23_setid_by_number.
+
+(* ... and in EVERY state the repaired Go model reaches from genesis (any tree, announcements and
+   event list, no bound) the tables have that shape: for the recorded last-block numbers ls of the
+   sets 0..current-1, GetSetIDByBlockNumber(n) is the set whose last block is the first one >= n,
+   else the current set, whenever ls is non-decreasing *)
+Theorem C23_setid_by_number_reachable : forall t sched forced evs,
+  let s := fst (run_go fixed t sched forced ginit evs) in
+  exists ls, tables_inv s ls /\
+    (sorted_n ls = true -> forall n,
+       go_setid_by_number s n =
+       Some (match s_setid_in (spec_table_from 0 ls) n with Some id => id | None => g_setid s end)).
+Proof. exact reachable_setid_by_number. Qed.
+Print Assumptions C23_setid_by_number_reachable.
 
 (* --- set ids grow by one per change (every step, every state, both sides) --- *)
 Theorem C23_set_id_increments_by_one : forall v t sched forced s e,
